@@ -176,7 +176,7 @@ Definition introduce_merge_root (m : merge) (r : list seg) : list seg :=
         let del := fold_left (fun acc x => if is_del acc x then acc else acc ++ [x])
                              (task_new_deleted r t) [] in
         if (length del <? length nd)%nat
-        then [mkSeg (t_new t) nd del (m_file m)]
+        then [mkSeg (t_new t) nd del true]   (* both merge paths write the merged segment to a .zap file and open it from there *)
         else []                                (* fully obsoleted meanwhile: skipped *)
       end) (m_tasks m) in
   staying ++ news.
